@@ -3,6 +3,7 @@
 (* Validates operation logs recorded from the real dyncrc16 package        *)
 (* against CrcStream.  One trace = one hash object's life; ops:            *)
 (*   [op |-> "write", data |-> bytes, n |-> returned count]                *)
+(*   [op |-> "copy", data |-> bytes, n |-> count]  (io.Copy into the hash)  *)
 (*   [op |-> "sum16", v |-> observed]                                      *)
 (*   [op |-> "sum", prefix |-> bytes, v |-> observed bytes]                *)
 (*   [op |-> "reset"]                                                      *)
@@ -37,6 +38,9 @@ Consume ==
        IN CASE o.op = "write" ->
                  /\ Write(o.data)
                  /\ Expect(o.n = Len(o.data), where @@ [what |-> "write count", observed |-> o.n])
+            [] o.op = "copy" ->        \* io.Copy / io.CopyN from a reader into the hash: a write of the same bytes
+                 /\ Write(o.data)
+                 /\ Expect(o.n = Len(o.data), where @@ [what |-> "bytes copied", observed |-> o.n])
             [] o.op = "sum16" ->
                  /\ UNCHANGED svars
                  /\ Expect(o.v = Sum16, where @@ [what |-> "sum16", expected |-> Sum16, observed |-> o.v])
